@@ -87,16 +87,18 @@ class TimeTriggerDecorator(TriggerDecorator):
         """Validate the decorator arguments."""
         await super().validate()
         self.timespec = self.args
+        # a task.wait_until has no start-up or shutdown of its own: there these words denote no instant
+        for_function = not isinstance(self.dm, WaitUntilDecoratorManager)
 
         if len(self.timespec) == 0:
-            self.run_on_startup = True
+            self.run_on_startup = for_function
             return
 
         while "startup" in self.timespec:
-            self.run_on_startup = True
+            self.run_on_startup = for_function
             self.timespec.remove("startup")
         while "shutdown" in self.timespec:
-            self.run_on_shutdown = True
+            self.run_on_shutdown = for_function
             self.timespec.remove("shutdown")
 
     async def _cycle(self):
